@@ -43,6 +43,17 @@ class C10(C01):
                 # calls whose only (or last) socket call is a close()
                 base["steps"].append(wl.call("quit") if rng.random() < 0.5 else
                                      {"t": "call", "m": "close", "a": [], "k": {}})
+        imax = None
+        for nd in w["nodes"]:
+            imax = (nd.get("opts") or {}).get("item_max", imax)
+        if imax and rng.random() < 0.5:
+            # a multi-key store one item of which (not the last) the server refuses as too large: an error line among
+            # the replies, with replies of later items still to come
+            ks = gen.pick_keys(rng, 3)
+            pos = rng.randrange(max(npre, 1), len(base["steps"]) - 1)
+            base["steps"].insert(pos, {"t": "call", "m": "set_many",
+                                       "a": [E({ks[0]: b"s", ks[1]: b"B" * (imax + 50), ks[2]: b"t"})],
+                                       "k": {"noreply": False}, "tag": "refused-item"})
         if w["stack"] != "client" and rng.random() < 0.4:
             # a call that is rejected before any I/O while the pooled connection is open: the pool then discards
             # a perfectly healthy connection, and the only socket call of that operation is the close()
@@ -57,7 +68,7 @@ class C10(C01):
         recs = {c.step: c for c in res.calls}
         chosen = sorted(rng.sample(call_steps[:-3], min(len(call_steps) - 3, rng.randint(1, 2))))
         for i in call_steps[:-3]:
-            if base["steps"][i].get("tag") == "rejected-input" and i not in chosen:
+            if base["steps"][i].get("tag") in ("rejected-input", "refused-item") and i not in chosen:
                 chosen.append(i)
         out = []
         for i in chosen:
@@ -66,7 +77,11 @@ class C10(C01):
                 continue
             for ek in EVENTS:
                 cnt = rec.kinds.get(ek, 0)
-                positions = range(cnt) if cnt <= 3 else sorted({0, 1, cnt - 1, rng.randrange(cnt)})
+                positions = list(range(cnt)) if cnt <= 3 else sorted({0, 1, cnt - 1, rng.randrange(cnt)})
+                if ek == "recv" and cnt:
+                    # ... and one / two past the last receive the call makes on this tree: harmless here (the fault
+                    # never fires), but a variant of the code that reads on lands in it
+                    positions = positions + [cnt, cnt + 1]
                 for n in positions:
                     for exc in EXCS:
                         whens = ("before", "after", "partial", "partial") if ek == "sendall" else ("before",)
